@@ -1,8 +1,7 @@
 (* System/ComposeProofs_aux.v — component lemmas for System/ComposeProofs.v (C26, partial):
    what the client library model (cl_step) and the gateway model (gw_step) do, each on its own,
-   in the exchanges CONNECT, PUBLISH (short topic, QoS 0 / 1), PINGREQ, DISCONNECT, SUBSCRIBE
-   (short topic) and a broker PUBLISH (short topic, QoS 0), started in a quiescent connected state
-   (ClQuiet / GwQuiet).  Every lemma is stated for ALL states satisfying the predicate, all
+   in the exchanges CONNECT, PUBLISH (short topic, QoS 0 / 1), PINGREQ and DISCONNECT, started in
+   a quiescent connected state (ClQuiet / GwQuiet; CONNECT: in an idle state, ClIdle / GwIdle).  Every lemma is stated for ALL states satisfying the predicate, all
    configurations, topic names and payloads in the legal ranges. *)
 From stdpp Require Import base option list numbers fin_maps nmap.
 From Coq Require Import Lia ZArith ZifyN ZifyNat ZifyBool.
@@ -54,10 +53,8 @@ Proof. apply (delete_insert (M:=Nmap)). Qed.
 Lemma Nd_ins_emp {A} i (x : A) : delete i (<[i:=x]> (∅ : Nmap A)) = ∅.
 Proof. apply Nd_ins, Nl_emp. Qed.
 
-Ltac nl := repeat first [rewrite (Nl_ins (A:=ctxn)) | rewrite (Nl_ins (A:=N)) | rewrite (Nl_ins (A:=txn))
-  | rewrite (Nl_emp (A:=ctxn)) | rewrite (Nl_emp (A:=N)) | rewrite (Nl_emp (A:=txn))].
-Local Opaque pack read_dgram encode_short decode_short.
-Ltac ev := cbn -[pack insert delete lookup read_dgram encode_short decode_short].
+Ltac nl := rewrite ?(Nl_ins (A:=N)), ?(Nl_ins (A:=ctxn)), ?(Nl_ins (A:=txn)).
+Ltac ev := cbn -[pack insert delete lookup read_dgram encode_short decode_short N.add N.sub N.mul N.div N.modulo].
 
 Lemma short_parts t : is_short_topic t = true -> wf_bytes t -> exists a b, t = [a; b] /\ a < 256 /\ b < 256.
 Proof.
@@ -87,14 +84,39 @@ Proof. intros H. destruct (N.eqb_spec m 65535); lia. Qed.
 
 (* ------------------------------------------------------------------ the client library *)
 
-Ltac cl_destruct c HQ :=
-  let H1 := fresh "H" in let H2 := fresh "H" in let H3 := fresh "H" in let H4 := fresh "H" in
-  let H5 := fresh "H" in let H6 := fresh "H" in let H7 := fresh "H" in let H8 := fresh "H" in
-  destruct HQ as [H1 H2 H3 H4 H5 H6 H7 H8 Hmid];
-  destruct c as [st reg hdl objs byid byty nobj nmid tms nseq now lr canc exd gerr wg closed];
-  cbn in H1, H2, H3, H4, H5, H6, H7, H8, Hmid; subst.
+(* Symbolic execution.  The state stays a VARIABLE c (its quiescence facts are rewritten in), cbn is
+   used only with a WHITELIST (record projections, the record update function, boolean and N
+   equality tests on literals, filter/app on the timer lists), and it is CALL BY VALUE: a helper
+   application is replaced by its value (tactic val) before the state it returns is duplicated by
+   zeta/beta.  (Full cbn, or unfolding everything first, leaves terms whose conversion check at
+   Qed takes minutes.) *)
+Ltac bi := lazy beta iota zeta.
+Ltac pk := cbn [set cl_st cl_registered cl_handlers cl_objs cl_by_id cl_by_type cl_next_obj cl_next_mid cl_timers cl_next_seq
+  cl_now cl_last_read cl_cancelled cl_exited cl_group_err cl_waiting_group cl_conn_closed fst snd
+  N.eqb Pos.eqb andb orb negb ctm_kind ctm_at ctm_seq ctimer_obj ctx_bound ct_state_eqb cstate_eqb List.filter app
+  TIT_SHORT TIT_STRING TIT_REGISTERED TIT_PREDEFINED RC_ACCEPTED TY_CONNECT TY_PINGREQ TY_DISCONNECT].
+Ltac rwq HQ := rewrite ?(cq_st _ HQ), ?(cq_objs _ HQ), ?(cq_by_id _ HQ), ?(cq_by_type _ HQ), ?(cq_timers _ HQ),
+  ?(cq_canc _ HQ), ?(cq_exited _ HQ), ?(cq_closed _ HQ).
+Tactic Notation "rw" := match goal with HQ : ClQuiet _ |- _ => rwq HQ end.
+Ltac val t tac := let E := fresh "E" in eassert (E : t = _) by (tac; reflexivity); rewrite E; clear E.
 
-Ltac cl_quiet := constructor; ev; rewrite ?N.eqb_refl; try reflexivity; try assumption; try apply Nd_ins_emp.
+(* start_retry in a state that can send *)
+Ltac v_start_retry Hwf :=
+  match goal with |- context [start_retry ?cfg ?s ?call ?kind ?key ?st ?p ?bt] =>
+    val (start_retry cfg s call kind key st p bt)
+      ltac:(unfold start_retry, c_new_obj, c_arm, c_send; pk; rw; pk; rewrite (pack_fits p) by Hwf; pk) end.
+(* the finish of the only transaction *)
+Ltac v_finish :=
+  match goal with |- context [c_finish_obj ?s ?g] =>
+    val (c_finish_obj s g) ltac:(unfold c_finish_obj; pk; nl; bi; unfold c_disarm; pk; rewrite ?N.eqb_refl; pk) end.
+(* the shell of cl_step around an API call / a datagram pack p from the gateway *)
+Ltac ccall := unfold cl_step, do_call; bi; rw; bi.
+Ltac cgw p Hwf := unfold cl_step; bi; pk; rw; bi; rewrite (read_pack_roundtrip p) by Hwf; bi;
+  unfold handle_packet; bi; unfold c_get_id, c_get_type; pk; nl; bi; pk; nl; bi; pk.
+(* complete of a transaction whose call returns r, then the end of cl_step *)
+Ltac ccomplete := unfold complete; v_finish; bi; pk; rw; pk; unfold ret; pk; rw; pk.
+
+Ltac cl_quiet HQ := constructor; pk; rwq HQ; try reflexivity; try apply Nd_ins_emp; try apply (cq_mid _ HQ).
 
 (* Ping: PINGREQ out, PINGRESP in, the call returns nil *)
 Lemma cl_ping cfg c id : ClQuiet c ->
@@ -102,19 +124,10 @@ Lemma cl_ping cfg c id : ClQuiet c ->
     cl_step cfg c1 (CGw (pack Pingresp)) = (c', [CoRet (cl_now c) id ROk]) /\
     ClQuiet c' /\ cl_frame c c' /\ cl_next_mid c' = cl_next_mid c.
 Proof.
-  intros HQ. cl_destruct c HQ.
-  exists {| cl_st := Active; cl_registered := reg; cl_handlers := hdl;
-            cl_objs := <[nobj:=CxRetry id 5 TY_PINGREQ CtNone (Pingreq []) 0 id]> ∅; cl_by_id := ∅;
-            cl_by_type := <[TY_PINGREQ:=nobj]> ∅; cl_next_obj := nobj + 1; cl_next_mid := nmid;
-            cl_timers := [{| ctm_at := now + k_rdelay cfg; ctm_seq := nseq; ctm_kind := CtmRetry nobj |}];
-            cl_next_seq := nseq + 1; cl_now := now; cl_last_read := lr; cl_cancelled := None; cl_exited := false;
-            cl_group_err := gerr; cl_waiting_group := wg; cl_conn_closed := false |}.
-  eexists. split; [|split].
-  - ev. rewrite (pack_fits (Pingreq [])) by reflexivity. reflexivity.
-  - ev. rewrite (read_pack_roundtrip Pingresp) by reflexivity.
-    ev. unfold c_get_type. ev. nl. ev. nl. ev.
-    unfold complete, c_finish_obj. ev. nl. ev. reflexivity.
-  - split; [cl_quiet|]. split; [repeat split|reflexivity].
+  intros HQ. eexists. eexists. split; [|split].
+  - ccall. v_start_retry ltac:(reflexivity). bi. pk. rw. reflexivity.
+  - cgw Pingresp ltac:(reflexivity). ccomplete. reflexivity.
+  - split; [cl_quiet HQ|]. split; [repeat split|reflexivity].
 Qed.
 
 (* Publish on a short topic name, QoS 0: PUBLISH out, the call returns nil at once *)
@@ -125,13 +138,12 @@ Lemma cl_pub0 cfg c id topic retain payload :
                    CoRet (cl_now c) id ROk]) /\
     ClQuiet c' /\ cl_frame c c'.
 Proof.
-  intros HQ Hs Hw Hp. cl_destruct c HQ.
-  eexists. split; [|split].
-  - ev. rewrite Hs. ev.
-    rewrite (pack_fits (Publish false 0 retain TIT_SHORT (encode_short topic) nmid payload))
+  intros HQ Hs Hw Hp. pose proof (cq_mid _ HQ) as Hmid. eexists. split; [|split].
+  - ccall. rewrite Hs. bi. unfold do_publish, c_next_mid, c_send, ret. pk. rw. pk.
+    rewrite (pack_fits (Publish false 0 retain TIT_SHORT (encode_short topic) (cl_next_mid c) payload))
       by (apply wf_pub_short; [lia|assumption|assumption|lia|assumption]).
-    ev. reflexivity.
-  - cl_quiet. apply next_mid_range, Hmid.
+    pk. rw. reflexivity.
+  - cl_quiet HQ. apply next_mid_range, Hmid.
   - repeat split.
 Qed.
 
@@ -143,23 +155,208 @@ Lemma cl_pub1 cfg c id topic retain payload :
     cl_step cfg c1 (CGw (pack (Puback (encode_short topic) (cl_next_mid c) RC_ACCEPTED))) = (c', [CoRet (cl_now c) id ROk]) /\
     ClQuiet c' /\ cl_frame c c'.
 Proof.
-  intros HQ Hs Hw Hp. cl_destruct c HQ.
+  intros HQ Hs Hw Hp. pose proof (cq_mid _ HQ) as Hmid.
   pose proof (encode_short_lt topic Hs Hw) as He.
-  set (p := Publish false 1 retain TIT_SHORT (encode_short topic) nmid payload).
-  exists {| cl_st := Active; cl_registered := reg; cl_handlers := hdl;
-            cl_objs := <[nobj:=CxRetry id 3 nmid CtAwaitPuback p 0 id]> ∅; cl_by_id := <[nmid:=nobj]> ∅;
-            cl_by_type := ∅; cl_next_obj := nobj + 1; cl_next_mid := if nmid =? 65535 then 1 else nmid + 1;
-            cl_timers := [{| ctm_at := now + k_rdelay cfg; ctm_seq := nseq; ctm_kind := CtmRetry nobj |}];
-            cl_next_seq := nseq + 1; cl_now := now; cl_last_read := lr; cl_cancelled := None; cl_exited := false;
-            cl_group_err := gerr; cl_waiting_group := wg; cl_conn_closed := false |}.
-  eexists. split; [|split; [|split]].
-  - ev. rewrite Hs. ev. fold p.
-    rewrite (pack_fits p) by (apply wf_pub_short; [lia|assumption|assumption|lia|assumption]).
-    reflexivity.
-  - ev. rewrite (read_pack_roundtrip (Puback (encode_short topic) nmid RC_ACCEPTED))
-      by (cbn [wf_pkt]; unfold lt16, lt8, RC_ACCEPTED; repeat (apply andb_true_iff; split); apply N.ltb_lt; lia).
-    ev. unfold c_get_id. ev. nl. ev. nl. subst p. ev.
-    unfold complete, c_finish_obj. ev. nl. ev. reflexivity.
-  - cl_quiet. apply next_mid_range, Hmid.
+  eexists. eexists. split; [|split; [|split]].
+  - ccall. rewrite Hs. bi. unfold do_publish, c_next_mid. pk.
+    v_start_retry ltac:(apply wf_pub_short; [lia|assumption|assumption|lia|assumption]). bi. pk. rw. reflexivity.
+  - cgw (Puback (encode_short topic) (cl_next_mid c) RC_ACCEPTED)
+      ltac:(cbn [wf_pkt]; unfold lt16, lt8, RC_ACCEPTED; repeat (apply andb_true_iff; split); apply N.ltb_lt; lia).
+    ccomplete. reflexivity.
+  - cl_quiet HQ. apply next_mid_range, Hmid.
   - repeat split.
 Qed.
+
+(* Disconnect: DISCONNECT out, DISCONNECT in, the call returns nil; the client is disconnected and
+   its group context cancelled (the receive loop exits at its next poll tick, one second later) *)
+Lemma cl_disconnect cfg c id : ClQuiet c ->
+  exists c1 c', cl_step cfg c (CCall id ADisconnect) = (c1, [CoSn (cl_now c) (pack (Disconnect 0))]) /\
+    cl_step cfg c1 (CGw (pack (Disconnect 0))) = (c', [CoRet (cl_now c) id ROk]) /\
+    cl_st c' = Disconnected /\ cl_cancelled c' = Some (cl_now c + 1000) /\ cl_exited c' = false /\ cl_now c' = cl_now c.
+Proof.
+  intros HQ.
+  assert (Hpoll : (cl_now c + readTimeout * ((cl_now c - cl_now c) / readTimeout + 1) <=? cl_now c) = false).
+  { apply N.leb_gt. unfold readTimeout. rewrite N.sub_diag. change (0 / 1000) with 0. lia. }
+  assert (Hpoll' : cl_now c + readTimeout * ((cl_now c - cl_now c) / readTimeout + 1) = cl_now c + 1000).
+  { unfold readTimeout. rewrite N.sub_diag. change (0 / 1000) with 0. lia. }
+  eexists. eexists. split; [|split].
+  - ccall. v_start_retry ltac:(reflexivity). bi. unfold c_set_state. pk. rw. reflexivity.
+  - cgw (Disconnect 0) ltac:(reflexivity). unfold complete. v_finish. bi. pk. rw. pk.
+    match goal with |- context [c_cancel_from_api ?s] =>
+      val (c_cancel_from_api s) ltac:(unfold c_cancel_from_api, c_stop_ctx_timers, next_poll; pk; rw; pk) end.
+    unfold ret. pk. rewrite Hpoll. reflexivity.
+  - pk. rewrite Hpoll'. repeat split. apply (cq_exited _ HQ).
+Qed.
+
+(* Connect (no user, no will) in a fresh client: CONNECT out, CONNACK in, the call returns nil.
+   Stated for any idle state (all of cl_init's relevant fields), so that the keys stay symbolic. *)
+Record ClIdle (c : cl_state) : Prop := {
+  ci_objs : cl_objs c = ∅; ci_by_id : cl_by_id c = ∅; ci_by_type : cl_by_type c = ∅;
+  ci_timers : cl_timers c = []; ci_canc : cl_cancelled c = None; ci_exited : cl_exited c = false;
+  ci_closed : cl_conn_closed c = false; ci_mid : 1 <= cl_next_mid c <= 65535 }.
+Ltac rwi HI := rewrite ?(ci_objs _ HI), ?(ci_by_id _ HI), ?(ci_by_type _ HI), ?(ci_timers _ HI),
+  ?(ci_canc _ HI), ?(ci_exited _ HI), ?(ci_closed _ HI).
+
+Lemma cl_connect_idle cfg c id : wf_cl_cfg cfg -> k_user cfg = [] -> ClIdle c ->
+  exists c1 c', cl_step cfg c (CCall id AConnect) = (c1, [CoSn (cl_now c) (pack (connect_pkt cfg))]) /\
+    cl_step cfg c1 (CGw (pack (Connack RC_ACCEPTED))) = (c', [CoRet (cl_now c) id ROk]) /\
+    ClQuiet c' /\ cl_frame c c'.
+Proof.
+  intros Hcfg Hu HI.
+  eexists. eexists. split; [|split].
+  - unfold cl_step, do_call; bi; rwi HI; bi. unfold connect_attempt, c_new_obj, c_arm, c_send. pk. rwi HI. pk.
+    rewrite (pack_fits (connect_pkt cfg)) by (apply wf_connect_pkt, Hcfg). rewrite Hu. change (len (@nil N) =? 0) with true. pk. rwi HI. reflexivity.
+  - unfold cl_step; bi; pk; rwi HI; bi; rewrite (read_pack_roundtrip (Connack RC_ACCEPTED)) by reflexivity; bi;
+    unfold handle_packet; bi; unfold c_get_id, c_get_type; pk; nl; bi; pk; nl; bi; pk.
+    unfold complete, c_set_state. v_finish. bi. pk. rwi HI. pk. unfold ret. pk. rwi HI. reflexivity.
+  - split; [|repeat split]. constructor; pk; rwi HI; try reflexivity; try apply Nd_ins_emp. apply (ci_mid _ HI).
+Qed.
+
+Lemma cl_connect cfg id : wf_cl_cfg cfg -> k_user cfg = [] ->
+  exists c1 c', cl_step cfg cl_init (CCall id AConnect) = (c1, [CoSn 0 (pack (connect_pkt cfg))]) /\
+    cl_step cfg c1 (CGw (pack (Connack RC_ACCEPTED))) = (c', [CoRet 0 id ROk]) /\
+    ClQuiet c' /\ cl_now c' = 0 /\ cl_handlers c' = [] /\ cl_registered c' = [].
+Proof.
+  intros Hcfg Hu.
+  assert (HI : ClIdle cl_init) by (constructor; try reflexivity; cbn [cl_init cl_next_mid]; lia).
+  destruct (cl_connect_idle cfg cl_init id Hcfg Hu HI) as (c1 & c' & E1 & E2 & HQ & Hn & Hh & Hr).
+  exists c1, c'. split; [exact E1|]. split; [exact E2|]. split; [exact HQ|]. split; [exact Hn|]. split; [exact Hh|exact Hr].
+Qed.
+
+(* ------------------------------------------------------------------ the gateway session *)
+
+Ltac gk := cbn [set gw_st gw_client_id gw_keepalive gw_registered gw_seq_next gw_seq_overflow gw_no_more_tids gw_buffer
+  gw_objs gw_by_id gw_connect gw_next_obj gw_timers gw_next_seq gw_now gw_last_sn gw_last_mq gw_ending gw_ended
+  gw_accepted gw_handed_out gw_auth_seen fst snd
+  N.eqb Pos.eqb andb orb negb tm_kind tm_at tm_seq timer_of_obj cstate_eqb cx_state_eqb bp_state_eqb List.filter app
+  TIT_SHORT TIT_STRING TIT_REGISTERED TIT_PREDEFINED RC_ACCEPTED
+  c_cid c_clean c_keepalive c_will c_wqos c_wretain c_wtopic c_wmsg c_uflag c_user c_pflag c_pass].
+Ltac rwgq HG := rewrite ?(gq_st _ HG), ?(gq_objs _ HG), ?(gq_by_id _ HG), ?(gq_connect _ HG), ?(gq_timers _ HG),
+  ?(gq_ending _ HG), ?(gq_ended _ HG).
+Tactic Notation "rwg" := match goal with HG : GwQuiet _ |- _ => rwgq HG end.
+
+(* the shell of gw_step around a datagram pack p of the client / an MQTT packet of the broker *)
+Ltac gsn p Hwf := unfold gw_step; bi; rwg; bi; gk; rwg; bi; rewrite (read_pack_roundtrip p) by Hwf; bi;
+  unfold handle_sn, packet_legal; gk; rwg; bi; gk.
+Ltac gmq := unfold gw_step; bi; rwg; bi; gk; rwg; bi; unfold handle_mq; bi.
+Ltac v_gfinish :=
+  match goal with |- context [finish_obj ?s ?g] =>
+    val (finish_obj s g) ltac:(unfold finish_obj, disarm_obj; gk; nl; bi; gk; nl; bi; gk; rewrite ?N.eqb_refl; gk) end.
+Ltac v_sn_send Hwf :=
+  match goal with |- context [sn_send ?s ?p] =>
+    val (sn_send s p) ltac:(unfold sn_send, sn_send_owned; gk; rwg; bi; rewrite (pack_fits p) by Hwf; unfold ok; gk) end.
+Ltac gw_quiet HG := constructor; gk; rwgq HG; try reflexivity; try apply Nd_ins_emp; try apply (gq_accepted _ HG).
+
+(* PINGREQ of the active client is forwarded; the broker's PINGRESP is forwarded back *)
+Lemma gw_ping cfg g : GwQuiet g ->
+  exists g1 g', gw_step cfg g (EvSn (pack (Pingreq []))) = (g1, [OutMq (gw_now g) MqPingreq]) /\
+    gw_step cfg g1 (EvMq MqPingresp) = (g', [OutSn (gw_now g) (pack Pingresp)]) /\
+    GwQuiet g' /\ gw_frame g g' /\ gw_now g1 = gw_now g.
+Proof.
+  intros HG. eexists. eexists. split; [|split].
+  - gsn (Pingreq []) ltac:(reflexivity). unfold mq_send, ok, finish_r. gk. reflexivity.
+  - gmq. gk. rwg. gk. v_sn_send ltac:(reflexivity). unfold finish_r. gk. reflexivity.
+  - split; [gw_quiet HG|]. split; [repeat split|reflexivity].
+Qed.
+
+(* PUBLISH (short topic name, QoS 0) of the client is forwarded to the broker *)
+Lemma gw_pub0 cfg g topic retain mid payload :
+  GwQuiet g -> is_short_topic topic = true -> wf_bytes topic -> has_wildcard topic = false ->
+  mid < 65536 -> okb payload = true ->
+  exists g', gw_step cfg g (EvSn (pack (Publish false 0 retain TIT_SHORT (encode_short topic) mid payload))) =
+             (g', [OutMq (gw_now g) (MqPublish false 0 retain topic mid payload)]) /\
+    GwQuiet g' /\ gw_frame g g'.
+Proof.
+  intros HG Hs Hw Hwild Hm Hp. eexists. split; [|split].
+  - gsn (Publish false 0 retain TIT_SHORT (encode_short topic) mid payload)
+      ltac:(apply wf_pub_short; [lia|assumption|assumption|assumption|assumption]).
+    unfold handle_client_publish, resolve_client_topic. gk. rewrite (decode_encode_short topic Hs Hw), Hwild. gk.
+    unfold mq_send, ok, finish_r. gk. reflexivity.
+  - gw_quiet HG.
+  - repeat split.
+Qed.
+
+(* PUBLISH (short topic name, QoS 1): forwarded; the broker's PUBACK is forwarded back *)
+Lemma gw_pub1 cfg g topic retain mid payload :
+  GwQuiet g -> is_short_topic topic = true -> wf_bytes topic -> has_wildcard topic = false ->
+  1 <= mid < 65536 -> okb payload = true ->
+  exists g1 g', gw_step cfg g (EvSn (pack (Publish false 1 retain TIT_SHORT (encode_short topic) mid payload))) =
+             (g1, [OutMq (gw_now g) (MqPublish false 1 retain topic mid payload)]) /\
+    gw_step cfg g1 (EvMq (MqPuback mid)) = (g', [OutSn (gw_now g) (pack (Puback (encode_short topic) mid RC_ACCEPTED))]) /\
+    GwQuiet g' /\ gw_frame g g' /\ gw_now g1 = gw_now g.
+Proof.
+  intros HG Hs Hw Hwild Hm Hp.
+  pose proof (encode_short_lt topic Hs Hw) as He.
+  assert (Hm0 : (mid =? 0) = false) by (apply N.eqb_neq; lia).
+  eexists. eexists. split; [|split; [|split]].
+  - gsn (Publish false 1 retain TIT_SHORT (encode_short topic) mid payload)
+      ltac:(apply wf_pub_short; [lia|assumption|assumption|lia|assumption]).
+    unfold handle_client_publish, resolve_client_topic. gk. rewrite (decode_encode_short topic Hs Hw), Hwild, Hm0. gk.
+    unfold new_obj, arm, mq_send, ok, finish_r. gk. rwg. reflexivity.
+  - gmq. unfold get_by_id. gk. nl. bi. gk. nl. bi. gk. v_gfinish.
+    v_sn_send ltac:(cbn [wf_pkt]; unfold lt16, lt8, RC_ACCEPTED; repeat (apply andb_true_iff; split); apply N.ltb_lt; lia).
+    unfold finish_r. gk. reflexivity.
+  - gw_quiet HG.
+  - split; [repeat split|reflexivity].
+Qed.
+
+(* DISCONNECT of the client: MQTT DISCONNECT to the broker, DISCONNECT back, the session begins to end *)
+Lemma gw_disconnect cfg g : GwQuiet g ->
+  exists g', gw_step cfg g (EvSn (pack (Disconnect 0))) =
+             (g', [OutMq (gw_now g) MqDisconnect; OutSn (gw_now g) (pack (Disconnect 0)); OutCancel (gw_now g) EcClientDisconnect]) /\
+    gw_st g' = Disconnected /\ (exists te, gw_ending g' = Some te) /\ gw_ended g' = false /\ gw_now g' = gw_now g.
+Proof.
+  intros HG. eexists. split.
+  - gsn (Disconnect 0) ltac:(reflexivity). unfold mq_send, ok, andthen. gk.
+    v_sn_send ltac:(reflexivity). unfold stop, finish_r, begin_end. gk. reflexivity.
+  - gk. repeat split. eexists. reflexivity. apply (gq_ended _ HG).
+Qed.
+
+(* a session that is ending ignores the end of the broker connection *)
+Lemma gw_eof_ending cfg g te : gw_ended g = false -> gw_ending g = Some te -> gw_step cfg g EvMqEof = (g, []).
+Proof. intros H1 H2. unfold gw_step. rewrite H1, H2. reflexivity. Qed.
+
+(* CONNECT (no will, authentication disabled) in a fresh session: MQTT CONNECT out; the broker's
+   CONNACK 0 makes the session active and is answered with CONNACK accepted *)
+Record GwIdle (g : gw_state) : Prop := {
+  gi_st : gw_st g = Disconnected; gi_objs : gw_objs g = ∅; gi_by_id : gw_by_id g = ∅; gi_connect : gw_connect g = None;
+  gi_timers : gw_timers g = []; gi_ending : gw_ending g = None; gi_ended : gw_ended g = false }.
+Ltac rwgi HI := rewrite ?(gi_st _ HI), ?(gi_objs _ HI), ?(gi_by_id _ HI), ?(gi_connect _ HI), ?(gi_timers _ HI),
+  ?(gi_ending _ HI), ?(gi_ended _ HI).
+
+Definition mq_connect_of (cfg : gw_cfg) (clean : bool) (dur : N) (cid : bytes) : mq_connect :=
+  {| c_cid := cid; c_clean := clean; c_keepalive := dur;
+     c_will := false; c_wqos := 0; c_wretain := false; c_wtopic := []; c_wmsg := [];
+     c_uflag := match cfg_user cfg with Some _ => true | None => false end;
+     c_user := match cfg_user cfg with Some u => u | None => [] end;
+     c_pflag := match cfg_pass cfg with Some _ => true | None => false end;
+     c_pass := match cfg_pass cfg with Some p => p | None => [] end |}.
+
+Lemma gw_connect_idle cfg g clean dur cid sp :
+  GwIdle g -> auth_enabled cfg = false -> 0 < dur < 65536 -> okb1 cid = true ->
+  exists g1 g', gw_step cfg g (EvSn (pack (Connect false clean 1 dur cid))) =
+             (g1, [OutMq (gw_now g) (MqConnect (mq_connect_of cfg clean dur cid))]) /\
+    gw_step cfg g1 (EvMq (MqConnack sp 0)) = (g', [OutSn (gw_now g) (pack (Connack RC_ACCEPTED))]) /\
+    GwQuiet g' /\ gw_now g' = gw_now g /\ gw_client_id g' = cid /\ gw_keepalive g' = dur /\ gw_now g1 = gw_now g.
+Proof.
+  intros HI Hauth Hdur Hcid.
+  assert (Hd0 : (dur =? 0) = false) by (apply N.eqb_neq; lia).
+  eexists. eexists. split; [|split].
+  - unfold gw_step; bi; rwgi HI; bi; gk; rwgi HI; bi.
+    rewrite (read_pack_roundtrip (Connect false clean 1 dur cid))
+      by (cbn [wf_pkt]; unfold lt16; rewrite Hcid; repeat (apply andb_true_iff; split); try reflexivity; apply N.ltb_lt; lia).
+    bi. unfold handle_sn, packet_legal; gk; rwgi HI; bi; gk.
+    unfold handle_connect. gk. rwgi HI. gk. rewrite Hd0. gk. rwgi HI. bi.
+    unfold new_obj, arm, connect_start. gk. rewrite Hauth. unfold connect_auth_done, set_obj, mq_send, ok, finish_r. gk. 
+    fold (mq_connect_of cfg clean dur cid). reflexivity.
+  - unfold gw_step; bi; gk; rwgi HI; bi; gk. rwgi HI. bi. unfold handle_mq; bi. unfold get_connect. gk. nl. bi. gk.
+    unfold andthen.
+    match goal with |- context [sn_send ?s ?p] =>
+      val (sn_send s p) ltac:(unfold sn_send, sn_send_owned; gk; bi; rewrite (pack_fits p) by reflexivity; unfold ok; gk) end.
+    gk. v_gfinish. unfold ok, finish_r. gk. reflexivity.
+  - split; [|repeat split]. constructor; gk; rwgi HI; try reflexivity; try apply Nd_ins_emp.
+    rewrite (insert_insert (M:=Nmap)). apply Nd_ins_emp.
+Qed.
+
+Lemma gw_idle_init cfg : GwIdle (init_state cfg).
+Proof. constructor; reflexivity. Qed.
